@@ -475,10 +475,12 @@ def run_check(prop, a, jobs, findings, scratch, seed, t_start):
         mine = [ob for ob in r['obligations'] if prop in ob['props'] or (a.all_props and not set(ob['props']) & {'CANARY', 'UNWIND', 'C11'})]
         can = [ob for ob in r['obligations'] if 'CANARY' in ob['props']]
         unw = [ob for ob in r['obligations'] if 'UNWIND' in ob['props']]
-        for ob in can:
-            canaries += 1
-            if ob['status'] != 'FAILURE':
-                problems.append('job %s: canary "%s" is not reachable: the harness assumptions are contradictory (vacuous proof)' % (j['id'], ob['desc']))
+        fired = [ob for ob in can if ob['status'] == 'FAILURE']
+        canaries += len(fired)
+        # vacuity: a job whose canaries are ALL unreachable has contradictory assumptions (individual canaries may sit on
+        # paths that a particular case key does not take; the first canary of every harness follows its assumptions directly)
+        if can and not fired:
+            problems.append('job %s: no canary is reachable (%s): the harness assumptions are contradictory (vacuous proof)' % (j['id'], '; '.join(ob['desc'] for ob in can)[:300]))
         if not mine and not j.get('safety_only'):
             problems.append('job %s generated no obligation for %s' % (j['id'], prop))
         for ob in unw:
@@ -507,13 +509,20 @@ def run_check(prop, a, jobs, findings, scratch, seed, t_start):
         for j, ob in violations:
             print('FAILED: "%s" in job %s' % (ob['desc'], j['id']))
         # re-run the failing jobs with traces and replay natively (the first few distinct ones)
-        seen = set(); traced = {}
+        seen = set(); traced = {}; skipped_reports = 0
+        # traced re-runs of the first few failing jobs, in parallel
+        first_jobs = []
+        for j, ob in violations:
+            if j['id'] not in [x['id'] for x in first_jobs]: first_jobs.append(j)
+            if len(first_jobs) >= 6: break
+        with concurrent.futures.ThreadPoolExecutor(NCPU) as ex:
+            for j, rr in zip(first_jobs, ex.map(lambda jj: run_job(jj, jj['_tu'], safety or jj.get('safety_always', False), scratch, want_trace=True), first_jobs)):
+                traced[j['id']] = rr
         for j, ob in violations:
             if (j['id'], ob['desc']) in seen: continue
             seen.add((j['id'], ob['desc']))
-            if len(seen) > 8: break
-            if j['id'] not in traced:      # one traced re-run per failing job serves all its failed obligations
-                traced[j['id']] = run_job(j, j['_tu'], safety or j.get('safety_always', False), scratch, want_trace=True)
+            if len(seen) > 10 or j['id'] not in traced:
+                skipped_reports += 1; continue          # reported in the FAILED list above and counted; not replayed
             rr = traced[j['id']]
             ob2 = next((o for o in rr['obligations'] if o['name'] == ob['name'] and o['status'] == 'FAILURE'), None)
             rdir = os.path.join(VERIF, 'replays', prop); os.makedirs(rdir, exist_ok=True)
@@ -532,6 +541,7 @@ def run_check(prop, a, jobs, findings, scratch, seed, t_start):
             print('obligation failed: "%s" in job %s (native replay: %s)' % (ob['desc'], j['id'], verdict))
             print('VIOLATION property=%s replay=%s%s' % (prop, rpath, tail))
             vio_out.append({'job': j['id'], 'obligation': ob['desc'], 'replay': rpath, 'native': verdict})
+        if skipped_reports: print('(%d further failed obligations are listed above as FAILED and not replayed)' % skipped_reports)
         rc = 1
     problems = list(dict.fromkeys(problems))
     for u in undecided: print('UNDECIDED:', u)
